@@ -398,7 +398,7 @@ def _distinct_same_base_pair(nodes) -> bool:
 def _post_events_of_district(snap, res, graph, district, event):
     from y0.algorithm.identify.cg import value_of_self_intervention
 
-    FACTS["lines"].add("line6")
+    FACTS.setdefault("lines", set()).add("line6")
     bases = [n.get_base() for n in district]
     if len(bases) != len(set(bases)) and _distinct_same_base_pair(district):
         FACTS["same_base_district"] = True
@@ -423,9 +423,9 @@ def _post_conflicts(snap, res, cf_graph, event):
     from y0.algorithm.identify.cg import is_not_self_intervened
 
     if res:
-        FACTS["lines"].add("line8")
+        FACTS.setdefault("lines", set()).add("line8")
         return
-    FACTS["lines"].add("line9")
+    FACTS.setdefault("lines", set()).add("line9")
     live_nodes = [n for n in cf_graph.nodes() if is_not_self_intervened(n)]
     live = [n.get_base() for n in live_nodes]
     if len(live) != len(set(live)) and _distinct_same_base_pair(live_nodes):
